@@ -9,6 +9,8 @@ Case forms
       side 0   : U[i].laws = L[j]          (j == nl -> None)
       side 1   : L[i].applies_to = U[j]    (j == nu -> None)
       side 2   : L[i].applies_to = Universe()   a fresh universe that nothing but the law set refers to
+      "sp"     : per step (cyclic) 1 -> the assignment is spelled obj["laws"] = x / obj["applies_to"] = x
+      "lk"     : the first two universes are joined by an edge (they are vertices of an outer graph)
   {"t":"attrs", "wl":..., "mixed":b, "cycles":b, "multipath":b, "multiverse":b}
 """
 import itertools
@@ -26,7 +28,7 @@ RULE = (
     "universes and 2-3 free law sets plus None, starting from every initial configuration "
     "(universe built with default laws or given one of the law sets, possibly one already "
     "given to another universe); bounded-exhaustive over all sequences up to the stated "
-    "length for the 2x2 pool, Hypothesis beyond it.  After every step the bijection "
+    "length for the 2x2 pool, Hypothesis beyond it (there also: assignments in the item spelling obj['laws'] = x, and universes that are linked as vertices of an outer graph).  After every step the bijection "
     "`u.laws is L <=> L.applies_to is u` is checked for ALL pairs including displaced "
     "default law sets.  Plus constructor read-back/immutability cases for the rule "
     "attributes.  Non-trivial = some step moves a law set that is in use elsewhere, or "
@@ -81,8 +83,10 @@ def strategy(tier):
     maxlen = 30 if tier == "quick" else 60
 
     hist = st.builds(
-        lambda nu, nl, init, ops, ucls, lcls: {
+        lambda nu, nl, init, ops, ucls, lcls, sp, lk: {
             "t": "hist",
+            **({"sp": sp} if any(sp) else {}),
+            **({"lk": True} if lk else {}),
             "nu": nu,
             "nl": nl,
             "ucls": ucls,
@@ -96,6 +100,8 @@ def strategy(tier):
         st.lists(st.tuples(st.sampled_from([0, 0, 0, 1, 1, 1, 2]), st.integers(0, 5), st.integers(0, 11)), max_size=maxlen),
         st.lists(st.integers(0, 1), min_size=1, max_size=3),
         st.lists(st.integers(0, 1), min_size=1, max_size=3),
+        st.lists(st.sampled_from([0, 0, 1]), min_size=1, max_size=3),
+        st.booleans(),
     )
     wl = st.one_of(
         st.none(),
@@ -195,6 +201,21 @@ def _check_hist(case):
             require(u.laws is not None and u.laws.applies_to is u, "constructor-post", "default laws not bound")
         inv(f"after constructing U{k}")
     Ux = U + [None]
+    if case.get("lk"):
+        # the universes are also VERTICES of an outer graph: an edge joins the first two
+        from edgegraph.structure import DirectedEdge
+
+        keep_edge = DirectedEdge(U[0], U[1])  # noqa: F841 - kept alive for the whole case
+        classes.add("universes-linked-as-vertices")
+    sp = case.get("sp") or [0]
+
+    def put(obj, name, val, step):
+        """The assignment, spelled obj.name = val or (BaseObject item access) obj["name"] = val."""
+        if sp[step % len(sp)]:
+            classes.add("item-spelling")
+            obj[name] = val
+        else:
+            setattr(obj, name, val)
 
     for step, (side, i, j) in enumerate(case["ops"]):
         if side == 2:
@@ -202,7 +223,7 @@ def _check_hist(case):
             lw = L[i]
             where = f"step {step} L{i}.applies_to = Universe()  (temporary, not retained by the caller)"
             try:
-                lw.applies_to = UC(j)()
+                put(lw, "applies_to", UC(j)(), step)
             except Exception as e:  # noqa
                 raise Violation("assignment-raised", f"{where}: {e!r}")
             tgt = lw.applies_to
@@ -231,7 +252,7 @@ def _check_hist(case):
             if new is None:
                 classes.add("assign-None")
             try:
-                u.laws = new
+                put(u, "laws", new, step)
             except Exception as e:  # noqa
                 raise Violation("assignment-raised", f"{where}: {e!r}")
             require(u.laws is new, "assignment-post", f"{where}: U.laws is not the assigned value")
@@ -246,7 +267,7 @@ def _check_hist(case):
                 classes.add("applies_to-moves-bound-law-set")
                 nt = True
             try:
-                lw.applies_to = new
+                put(lw, "applies_to", new, step)
             except Exception as e:  # noqa
                 raise Violation("assignment-raised", f"{where}: {e!r}")
             require(lw.applies_to is new, "assignment-post", f"{where}: L.applies_to is not the assigned value")
